@@ -29,7 +29,8 @@ func TestVerifC13Race(t *testing.T) {
 	defer func(v int) { maxBlockSize = v }(maxBlockSize)
 	cs := vNewCases(stage)
 	idx := 0
-	for i := 0; i < n; i++ {
+	nDead := 0
+	for i := 0; i < n && nDead < 2; i++ { // each stuck history costs a minute: two are evidence enough
 		r := vCaseRand(seed, i)
 		mb := []int{1, 2, 3, 5, 8}[r.Intn(5)]
 		nw := 2 + r.Intn(5)
@@ -43,6 +44,7 @@ func TestVerifC13Race(t *testing.T) {
 		type worker struct {
 			se       *cfsSess
 			r        *vRand
+			mu       sync.Mutex // guards ops, obs, desc and the session's tag set (a stuck worker is read while it is parked)
 			ops, obs []string
 			desc     []string
 			nops     int
@@ -52,6 +54,9 @@ func TestVerifC13Race(t *testing.T) {
 		for w := range ws {
 			wk := &worker{se: &cfsSess{t: t, fs: fs, mb: mb, prefix: fmt.Sprintf("w%d/", w), tagset: map[string]bool{}},
 				r: vCaseRand(seed*31+uint64(w)+1, i), nops: 5 + r.Intn(maxops), focus: r.Bool()}
+			if i%3 == 2 {
+				wk.se.churn, wk.focus = true, false
+			}
 			dir := fmt.Sprintf("w%d", w)
 			if err := fs.Mkdir(dir, 0755); err != nil {
 				t.Fatal(err)
@@ -71,9 +76,32 @@ func TestVerifC13Race(t *testing.T) {
 			go func() {
 				defer wg.Done()
 				add := func(op, ob, d string) {
+					wk.mu.Lock()
 					wk.ops = append(wk.ops, op)
 					wk.obs = append(wk.obs, ob)
 					wk.desc = append(wk.desc, d+" => "+ob)
+					wk.mu.Unlock()
+				}
+				if wk.se.churn {
+					// rename storm: a directory bounces between two sibling directories of this worker
+					// while the savers below walk the tree top-down in a tight loop
+					p := wk.se.prefix
+					for _, d := range []string{p + "sa", p + "sb", p + "sa/m"} {
+						ob := "VUnit"
+						if err := fs.Mkdir(d, 0755); err != nil {
+							ob = c08ErrObs(err)
+						}
+						add("OMkdir "+gStr(d), ob, "mkdir "+d)
+					}
+					names := []string{p + "sa/m", p + "sb/m"}
+					for k := 0; k < 300; k++ {
+						a, b := names[k%2], names[(k+1)%2]
+						ob := "VUnit"
+						if err := fs.Rename(a, b); err != nil {
+							ob = c08ErrObs(err)
+						}
+						add("ORename "+gStr(a)+" "+gStr(b), ob, "rename "+a+" "+b)
+					}
 				}
 				for k := 0; k < wk.nops; k++ {
 					wk.se.randomOp(wk.r, wk.focus, k, false, add)
@@ -111,7 +139,9 @@ func TestVerifC13Race(t *testing.T) {
 						saveErr = err
 						saveMtx.Unlock()
 					}
-					time.Sleep(time.Duration(fr.Intn(200)) * time.Microsecond)
+					if i%3 != 2 {
+						time.Sleep(time.Duration(fr.Intn(200)) * time.Microsecond)
+					}
 				}
 			}()
 		}
@@ -124,6 +154,9 @@ func TestVerifC13Race(t *testing.T) {
 			deadlocked = true
 		}
 		close(stop)
+		if deadlocked {
+			nDead++
+		}
 		if !deadlocked {
 			fg.Wait()
 			kc.mtx.Lock()
@@ -141,21 +174,33 @@ func TestVerifC13Race(t *testing.T) {
 				idx++
 				continue
 			}
-			ops, obs := wk.ops, wk.obs
-			tags := append(wk.se.tags(), fmt.Sprintf("mb=%d", mb), fmt.Sprintf("workers=%d", nw), fmt.Sprintf("keepmode=%d", kc.mode))
+			wk.mu.Lock()
+			ops, obs := append([]string{}, wk.ops...), append([]string{}, wk.obs...)
+			desc := append([]string{}, wk.desc...)
+			var tags []string
+			if deadlocked {
+				tags = []string{} // the session's tag set may still be written by a parked worker when it is released
+			} else {
+				tags = wk.se.tags()
+			}
+			wk.mu.Unlock()
+			tags = append(tags, fmt.Sprintf("mb=%d", mb), fmt.Sprintf("workers=%d", nw), fmt.Sprintf("keepmode=%d", kc.mode))
 			if deadlocked {
 				// an observation no model can explain: the history did not finish
 				ops = append(ops, `OStat "DEADLOCK"`)
 				obs = append(obs, "VUnit")
 				tags = append(tags, "deadlock")
 			}
-			if saveErr != nil && w == 0 {
+			saveMtx.Lock()
+			sErr := saveErr
+			saveMtx.Unlock()
+			if sErr != nil && w == 0 {
 				ops = append(ops, `OStat "SAVE-FAILED"`)
 				obs = append(obs, "VUnit")
-				wk.desc = append(wk.desc, "concurrent flush/save error: "+saveErr.Error())
+				desc = append(desc, "concurrent flush/save error: "+sErr.Error())
 			}
 			term := fmt.Sprintf("{| c_mb := %d; c_ops := [\n  %s];\n  c_obs := [\n  %s] |}", mb, strings.Join(ops, ";\n  "), strings.Join(obs, ";\n  "))
-			d := map[string]interface{}{"index": idx, "history_no": i, "worker": w, "workers": nw, "maxBlockSize": mb, "history": wk.desc}
+			d := map[string]interface{}{"index": idx, "history_no": i, "worker": w, "workers": nw, "maxBlockSize": mb, "history": desc}
 			nontrivial := false
 			for _, tg := range tags {
 				if tg == "write-ok" {
